@@ -37,8 +37,18 @@ impl Drop for Out {
     }
 }
 
-/// Run `f`, turning a panic into Err(message).
+/// location of the most recent panic (set by the panic hook)
+pub static LAST_PANIC_AT: std::sync::Mutex<String> = std::sync::Mutex::new(String::new());
+
+/// Run `f`, turning a panic into Err(message at location).
 pub fn guarded<T>(f: impl FnOnce() -> T) -> Result<T, String> {
+    guarded_msg(f).map_err(|m| {
+        let at = LAST_PANIC_AT.lock().map(|g| g.clone()).unwrap_or_default();
+        let at = at.rsplit("/src/").next().map(|s| s.to_string()).unwrap_or(at);
+        format!("{m} at src/{at}")
+    })
+}
+fn guarded_msg<T>(f: impl FnOnce() -> T) -> Result<T, String> {
     std::panic::catch_unwind(std::panic::AssertUnwindSafe(f)).map_err(|e| {
         if let Some(s) = e.downcast_ref::<&str>() {
             s.to_string()
